@@ -180,12 +180,12 @@ partial def runOp (st : St) (op : Op) : R :=
     match st.stack with
     | (start, len, false) :: rest =>
       ofERes { st with stack := rest } (e.placeReplace start len fun e' => e'.emitSlice bs)
-    | _ => .bad
+    | _ => .done st "noplace" none
   | .rpu n =>
     match st.stack with
     | (start, len, true) :: rest =>
       ofERes { st with stack := rest } (e.placeReplace start len fun e' => e'.emitU16 n)
-    | _ => .bad
+    | _ => .done st "noplace" none
   | .rpl =>
     -- the RDLENGTH back-patch of `Record::emit`: replace(len_since_place as u16)
     match st.stack with
@@ -193,14 +193,14 @@ partial def runOp (st : St) (op : Op) : R :=
       match e.lenSincePlace start len with
       | .ok v => ofERes { st with stack := rest } (e.placeReplace start len fun e' => e'.emitU16 v)
       | _ => .panic
-    | _ => .bad
+    | _ => .done st "noplace" none
   | .lsp =>
     match st.stack with
     | (start, len, _) :: _ =>
       match e.lenSincePlace start len with
       | .ok v => .done st ("=" ++ toString v) none
       | _ => .panic
-    | _ => .bad
+    | _ => .done st "noplace" none
   | .trim => .done { st with enc := e.trim } "ok" none
   | .slp s t =>
     match e.storeLabelPointer s t with
